@@ -26,6 +26,7 @@ from ser import Ids, Ser, Unsupported, Deser, parse_sexp, rat, bits_to_float
 LEAN_MODULE = "Optyx.Props.C03"
 THEOREMS = [
     "Optyx.Props.Closures.closureTables_agree",
+    "Optyx.Props.Closures.sanitizeShape_agrees",
     "Optyx.Props.C03.jacRow_sound",
     "Optyx.Props.C03.jacRow_length",
     "Optyx.Props.C03.unaryTables_agree",
